@@ -1,4 +1,5 @@
 import Secp.Proofs.Ecdh
+import Secp.Props.C03
 /-
   Props/C14 — ECDH shared secrets agree on both sides.
   Model: `Secp.Model.ecdhM` (GenerateSharedSecret: ScalarMultNonConst, ToAffine, x as 32 bytes).
@@ -22,5 +23,17 @@ theorem ecdh_symmetric (hp : PointSpec) (a b : Nat) (ha0 : 0 < a) (ha : a < N) (
 /-- a non-zero private key below N always has a finite public key -/
 theorem pubkey_finite (a : Nat) (ha0 : 0 < a) (ha : a < N) : ∃ x y, smul a G = some (x, y) ∧ OnCurve x y :=
   Secp.Proofs.Ecdh.pubkey_finite a ha0 ha
+
+/-! ### unconditional forms -/
+
+theorem ecdh_symmetric_unconditional (a b : Nat) (ha0 : 0 < a) (ha : a < N) (hb0 : 0 < b) (hb : b < N)
+    (xa ya xb yb : Nat) (hA : smul a G = some (xa, ya)) (hB : smul b G = some (xb, yb)) :
+    ecdhM a (xb, yb) = ecdhM b (xa, ya) :=
+  ecdh_symmetric Secp.Props.C03.pointSpec a b ha0 ha hb0 hb xa ya xb yb hA hB
+
+theorem ecdh_spec_unconditional (a b : Nat) (ha0 : 0 < a) (ha : a < N) (hb0 : 0 < b) (hb : b < N)
+    (x y : Nat) (hB : smul b G = some (x, y)) :
+    ∃ sx sy, smul ((a * b) % N) G = some (sx, sy) ∧ ecdhM a (x, y) = be32 sx :=
+  ecdh_spec Secp.Props.C03.pointSpec a b ha0 ha hb0 hb x y hB
 
 end Secp.Props.C14
